@@ -29,7 +29,7 @@ Inductive tval :=
 
 Record style := mkStyle {
   s_origin : option name; s_relativize : bool;
-  s_hex_chunk : Z; s_hex_sep : list Z; s_b64_chunk : Z; s_b64_sep : list Z }.
+  s_hex_chunk : Z; s_hex_sep : list Z; s_b64_chunk : Z; s_b64_sep : list Z; s_txt_utf8 : bool }.
 
 Record pctx := mkPctx { p_origin : option name; p_relativize : bool; p_relativize_to : option name }.
 
@@ -47,7 +47,7 @@ Definition print_field (st : style) (f : tfield) (v : tval) : res (list Z) :=
   | FName, VName n => name_to_styled_text st n
   | FHexRest, VBytes b => Ok (styled_hexify b (s_hex_chunk st) (s_hex_sep st))
   | FB64Rest c, VBytes b => Ok (styled_base64ify b (if c then s_b64_chunk st else 0) (s_b64_sep st))
-  | FTxtRest, VStrs l => Ok (txt_to_text l)
+  | FTxtRest, VStrs l => Ok (txt_to_text_style (s_txt_utf8 st) l)
   | _, _ => Internal eBadCase
   end.
 
@@ -177,9 +177,9 @@ Fixpoint vals_of_obs (fs : list tfield) (os : list obs) : option (list tval) :=
 
 Definition style_of_obs (o : obs) : option style :=
   match o with
-  | L [org; I rel; I hc; B hs; I bc; B bs] =>
+  | L [org; I rel; I hc; B hs; I bc; B bs; I u8] =>
       match oname_of_obs org with
-      | Some og => Some (mkStyle og (rel =? 1) hc hs bc bs)
+      | Some og => Some (mkStyle og (rel =? 1) hc hs bc bs (u8 =? 1))
       | None => None
       end
   | _ => None
@@ -195,7 +195,7 @@ Definition pctx_of_obs (o : obs) : option pctx :=
   | _ => None
   end.
 
-Definition run (c : obs) : obs :=
+Definition run_text (c : obs) : obs :=
   match c with
   | L [I 40; I rdtype; L vals; sty] =>
       match schema_of rdtype, style_of_obs sty with
@@ -213,4 +213,185 @@ Definition run (c : obs) : obs :=
       | _, _, _ => E eBadCase
       end
   | _ => TokM.run c
+  end.
+
+(* ---------- address text codecs: dns/ipv4.py, dns/ipv6.py ---------- *)
+(* bytes.split(sep) for a one-octet separator *)
+Fixpoint split_on (sep : Z) (s : list Z) (cur : list Z) : list (list Z) :=
+  match s with
+  | [] => [rev cur]
+  | c :: r => if c =? sep then rev cur :: split_on sep r [] else split_on sep r (c :: cur)
+  end.
+
+(* dns.ipv4.inet_ntoa *)
+Definition ipv4_ntoa (a : list Z) : res (list Z) :=
+  match a with
+  | [a0; a1; a2; a3] => Ok (dec a0 ++ 46 :: dec a1 ++ 46 :: dec a2 ++ 46 :: dec a3)
+  | _ => Lib eSyntax
+  end.
+
+(* part.isdigit() and not (len(part) > 1 and part[0] == "0") *)
+Definition ipv4_part_ok (p : list Z) : bool :=
+  negb (is_nil p) && forallb is_decimal p
+  && negb ((1 <? zlen p) && match p with c :: _ => c =? 48 | [] => false end).
+
+(* dns.ipv4.inet_aton on the octets of the text *)
+Definition ipv4_aton_b (b : list Z) : res (list Z) :=
+  let parts := split_on 46 b [] in
+  if negb (Nat.eqb (length parts) 4) then Lib eSyntax
+  else if negb (forallb ipv4_part_ok parts) then Lib eSyntax
+  else
+    let vals := map (fun p => dec_value p 0) parts in
+    if forallb (fun v => v <=? 255) vals then Ok vals else Lib eSyntax.
+
+Definition ipv4_aton (t : list Z) : res (list Z) := do b <- utf8_encode t; ipv4_aton_b b.
+
+(* dns.ipv6.inet_ntoa: 8 chunks of 4 hex digits, leading zeros stripped by the regex 0+([0-9a-f]+) *)
+Fixpoint strip0 (s : list Z) : list Z :=
+  match s with
+  | c :: (_ :: _) as t => if c =? 48 then strip0 t else s
+  | _ => s
+  end.
+
+Fixpoint pairs16 (a : list Z) : list Z :=
+  match a with
+  | hi :: lo :: r => (hi * 256 + lo) :: pairs16 r
+  | _ => []
+  end.
+
+Definition hex4 (v : Z) : list Z :=
+  [hexdigit (v / 4096); hexdigit ((v / 256) mod 16); hexdigit ((v / 16) mod 16); hexdigit (v mod 16)].
+
+Definition is_zero_chunk (c : list Z) : bool := zlist_eqb c [48].
+
+(* the loop `for i in range(8)` that finds the longest run of "0" chunks;
+   state: best_start, best_len, start, last_was_zero *)
+Fixpoint zrun_loop (cs : list (list Z)) (i : Z) (bs bl st : Z) (lz : bool) : Z * Z * Z * bool :=
+  match cs with
+  | [] => (bs, bl, st, lz)
+  | c :: r =>
+      if negb (is_zero_chunk c) then
+        if lz then
+          let cur := i - st in
+          if cur >? bl then zrun_loop r (i + 1) st cur st false
+          else zrun_loop r (i + 1) bs bl st false
+        else zrun_loop r (i + 1) bs bl st lz
+      else if negb lz then zrun_loop r (i + 1) bs bl i true
+      else zrun_loop r (i + 1) bs bl st lz
+  end.
+
+Definition zrun (cs : list (list Z)) : Z * Z :=
+  let '(bs, bl, st, lz) := zrun_loop cs 0 0 0 (-1) false in
+  if lz then
+    let cur := 8 - st in
+    if cur >? bl then (st, cur) else (bs, bl)
+  else (bs, bl).
+
+Fixpoint join_colon (l : list (list Z)) : list Z :=
+  match l with
+  | [] => []
+  | [x] => x
+  | x :: r => x ++ 58 :: join_colon r
+  end.
+
+Definition ipv6_ntoa (a : list Z) : res (list Z) :=
+  if negb (Nat.eqb (length a) 16) then Internal iValueError
+  else
+    let chunks := map (fun v => strip0 (hex4 v)) (pairs16 a) in
+    let '(bs, bl) := zrun chunks in
+    if bl >? 1 then
+      if (bs =? 0) && ((bl =? 6) || ((bl =? 5) && zlist_eqb (nth 5 chunks []) [102; 102; 102; 102])) then
+        do v4 <- ipv4_ntoa (skipn 12 a);
+        Ok ((if bl =? 6 then [58; 58] else [58; 58; 102; 102; 102; 102; 58]) ++ v4)
+      else
+        Ok (join_colon (firstn (Z.to_nat bs) chunks) ++ [58; 58]
+            ++ join_colon (skipn (Z.to_nat (bs + bl)) chunks))
+    else Ok (join_colon chunks).
+
+(* dns.ipv6.inet_aton (ignore_scope=False) on the octets of the text; texts containing a newline
+   are outside the model (`.` and `$` of the regular expressions treat them specially) *)
+Definition starts_with (p s : list Z) : bool := zlist_eqb (firstn (length p) s) p.
+Definition ends_with (p s : list Z) : bool := starts_with (rev p) (rev s).
+
+(* \d+\.\d+\.\d+\.\d+ *)
+Definition is_dotted_quad (s : list Z) : bool :=
+  let parts := split_on 46 s [] in
+  Nat.eqb (length parts) 4 && forallb (fun p => negb (is_nil p) && forallb is_decimal p) parts.
+
+(* the text before the last ':' and the text after it *)
+Definition split_last_colon (s : list Z) : option (list Z * list Z) :=
+  match split_on 58 (rev s) [] with
+  | last_rev :: ((_ :: _) as rest) =>
+      Some (rev (join_colon rest), rev last_rev)
+  | _ => None
+  end.
+
+Definition hex2 (v : Z) : list Z := [hexdigit (v / 16); hexdigit (v mod 16)].
+
+Definition pad4 (c : list Z) : list Z := repeat 48 (4 - length c) ++ c.
+
+Fixpoint canon_chunks (chunks : list (list Z)) (l : nat) (seen_empty : bool) : res (list Z * bool) :=
+  match chunks with
+  | [] => Ok ([], seen_empty)
+  | c :: r =>
+      match c with
+      | [] =>
+          if seen_empty then Lib eSyntax
+          else do rs <- canon_chunks r l true;
+               Ok (concat (repeat [48; 48; 48; 48] (8 - l + 1)) ++ fst rs, snd rs)
+      | _ =>
+          if Nat.ltb 4 (length c) then Lib eSyntax
+          else do rs <- canon_chunks r l seen_empty; Ok (pad4 c ++ fst rs, snd rs)
+      end
+  end.
+
+Definition ipv6_aton_b (b : list Z) : res (list Z) :=
+  if is_nil b then Lib eSyntax
+  else if ends_with [58] b && negb (ends_with [58; 58] b) then Lib eSyntax
+  else if starts_with [58] b && negb (starts_with [58; 58] b) then Lib eSyntax
+  else
+    let b := if zlist_eqb b [58; 58] then [48; 58; 58] else b in
+    (* the dotted-quad ending *)
+    do b <-
+       (match split_last_colon b with
+        | Some (pre, quad) =>
+            if is_dotted_quad quad then
+              do v <- ipv4_aton_b quad;
+              match v with
+              | [v0; v1; v2; v3] => Ok (pre ++ 58 :: hex2 v0 ++ hex2 v1 ++ 58 :: hex2 v2 ++ hex2 v3)
+              | _ => Lib eSyntax
+              end
+            else Ok b
+        | None => Ok b
+        end);
+    let b := if starts_with [58; 58] b then tl b
+             else if ends_with [58; 58] b then removelast b else b in
+    let chunks := split_on 58 b [] in
+    let l := length chunks in
+    if Nat.ltb 8 l then Lib eSyntax
+    else
+      do cs <- canon_chunks chunks l false;
+      if Nat.ltb l 8 && negb (snd cs) then Lib eSyntax
+      else match unhexlify (fst cs) with
+           | Ok d => Ok d
+           | _ => Lib eSyntax
+           end.
+
+Definition ipv6_aton (t : list Z) : res (list Z) := do b <- utf8_encode t; ipv6_aton_b b.
+
+Definition run_addr (c : obs) : obs :=
+  match c with
+  | L [I 50; B a] => TokM.obs_of_res B (ipv4_ntoa a)
+  | L [I 51; t] =>
+      match text_of_obs t with Some s => TokM.obs_of_res B (ipv4_aton s) | None => E eBadCase end
+  | L [I 52; B a] => TokM.obs_of_res B (ipv6_ntoa a)
+  | L [I 53; t] =>
+      match text_of_obs t with Some s => TokM.obs_of_res B (ipv6_aton s) | None => E eBadCase end
+  | _ => E eBadCase
+  end.
+
+Definition run (c : obs) : obs :=
+  match c with
+  | L (I op :: _) => if (50 <=? op) && (op <=? 59) then run_addr c else run_text c
+  | _ => run_text c
   end.
